@@ -302,6 +302,25 @@ static void run_badarg(const fc_desc* d, unsigned di, uint64_t seed, const sk_ma
 			}
 			else if ((d->flags & FC_AUTH) && C.plain && C.dest)
 				sk_count("probe.auth_failure_checked", 1);
+			if (!out->violated && (d->flags & FC_KEYOUT) && rc != ERR_OK)
+			{
+				/* a key-producing verification failed: whatever it left in its outputs was not
+				   authenticated, so it may only be the caller's old content or a constant fill */
+				int oi;
+				for (oi = 0; oi < C.nouts && !out->violated; ++oi)
+				{
+					size_t q;
+					for (q = 1; q < C.outs[oi].n; ++q)
+						if (C.outs[oi].p[q] != C.outs[oi].p[0])
+						{
+							snprintf(cls, sizeof(cls), "released_on_auth_failure:%s", d->name);
+							sk_violate(out, cls, "%s: variant %d failed with %u but output %d holds data (neither untouched nor cleared)",
+								d->name, j1, (unsigned)rc, oi);
+							break;
+						}
+				}
+				sk_count("probe.outputs_after_failed_verification_checked", 1);
+			}
 		}
 	}
 	out->nops = (unsigned)e;
